@@ -23,6 +23,7 @@ func init() {
 				"R3.freshkey":   "fresh key pair per request from crypto/rand",
 				"R4.extensions": "default extension set",
 				"R5.algonames":  "algorithm-name table and hook",
+				"R6.keyidcodec": "the KeyID the request carries is well-formed: the KeyID codec's tables (required keys vs always-emitted json tags, version tables) and the version checker's truth table, imported from C05",
 			},
 		},
 		Run: runC02,
@@ -45,6 +46,11 @@ func runC02(c *Ctx) {
 	}
 	c.Floor("R1.csr", nH, 1, "handler Generate implementations")
 	checkKeyGenerators(c)
+	// the KeyId string of the request decodes again: the encoder emits every key the decoder requires
+	c.WithRules(map[string]string{"R1.tables": "R6.keyidcodec", "R2.truth": "R6.keyidcodec", "R3.gate": "R6.keyidcodec"}, func() {
+		tablesC05(c)
+		keyidDecodeRules(c)
+	})
 }
 
 // globalByRoot: the package-level variable named by an origin root "global:<pkg>.<name>[.<field>...]".
@@ -274,6 +280,43 @@ func checkGenerate(c *Ctx, m *gensignModel, h *types.Named, gen *ssa.Function) {
 		c.Floor("R1.csr", nWr, 1, "writers of the handler configuration field "+confField)
 	}
 	if lk != nil {
+		// the slot table holds the operator's entries only: no code stores into the table field or into the table
+		// (a built-in entry would satisfy requests for an algorithm that was never configured)
+		if ld, ok := lk.X.(*ssa.UnOp); ok {
+			if fa, ok := ld.X.(*ssa.FieldAddr); ok {
+				if owner := derefNamedT(fa.X.Type()); owner != nil {
+					fname := fieldName(fa.X.Type(), fa.Field)
+					nCode := 0
+					for _, a := range w.FieldAccesses(owner, fname) {
+						if a.Kind != "write" && a.Kind != "mapwrite" {
+							continue
+						}
+						if st, isSt := a.Instr.(*ssa.Store); isSt {
+							if isNilConst(st.Val) {
+								continue
+							}
+							if mm, isMM := st.Val.(*ssa.MakeMap); isMM {
+								// an empty table
+								filled := false
+								for _, op := range w.mapOpsOn(mm) {
+									if op.Kind == "update" || op.Kind == "other" {
+										filled = true
+									}
+								}
+								if !filled {
+									continue
+								}
+							}
+						}
+						nCode++
+						c.Bad("R1.csr", hn+"|slot table holds configured entries only ("+shortFn(a.Fn)+")", w.Pos(a.Instr.Pos()), shortFn(a.Fn)+" writes "+owner.Obj().Name()+"."+fname+": a key slot not configured by the operator can satisfy the lookup (requests for an unconfigured algorithm are no longer refused)")
+					}
+					if nCode == 0 {
+						c.Ok("R1.csr", hn+"|slot table holds configured entries only", w.Pos(lk.Pos()), "no code writes "+owner.Obj().Name()+"."+fname+"; it is filled by decoding the configuration")
+					}
+				}
+			}
+		}
 		okv := extractOfV(lk, 1)
 		isT, known := f.KnownBool(req.Block(), okv)
 		c.Check(known && isT, "R1.csr", hn+"|request built only when a key slot is configured", w.Pos(req.Pos()), "must-fact lookup ok", "a request can be built although no key slot is configured for the algorithm (silent default)")
